@@ -347,7 +347,7 @@ def fixed_finding_ids(prop):
     return set(f["id"] for f in d.get("fixed", []) if f.get("property") == prop and f.get("id"))
 
 
-GEN_OWNERS = {"Loc.lean": ("C02", "C05", "C07", "C10", "C19"), "C20.lean": ("C20",), "C18.lean": ("C18",), "C12.lean": ("C12",), "C11.lean": ("C11",), "C16.lean": ("C16",), "C13.lean": ("C13",), "C17.lean": ("C17",)}
+GEN_OWNERS = {"Loc.lean": ("C02", "C05", "C07", "C09", "C10", "C19"), "C20.lean": ("C20",), "C18.lean": ("C18",), "C12.lean": ("C12",), "C11.lean": ("C11",), "C16.lean": ("C16",), "C13.lean": ("C13",), "C17.lean": ("C17",)}
 
 
 def restore_foreign_gen(prop):
